@@ -115,9 +115,10 @@ public:
 	}
     bool anonymous() const {return name_.empty();}
 
-    void set_name(std::string _name) {
-        name_ = std::move(_name);
-    }
+    /// Rename. Throws std::runtime_error if the property is shared and the new
+    /// name is empty or already used by another shared property of the same
+    /// type on the same mesh and entity kind.
+    void set_name(std::string _name);
 
 	const std::string& internal_type_name() const && = delete;
 
